@@ -73,6 +73,16 @@ func init() {
 	intrinsics["math.Trunc"] = f1(math.Trunc)
 	intrinsics["math.Pow"] = f2(math.Pow)
 	intrinsics["math.Mod"] = f2(math.Mod)
+	intrinsics["math.Max"] = f2(math.Max)
+	intrinsics["math.Min"] = f2(math.Min)
+	intrinsics["math.Sqrt"] = f1(math.Sqrt)
+	intrinsics["math.Log10"] = f1(math.Log10)
+	intrinsics["math.Log"] = f1(math.Log)
+	intrinsics["math.Exp"] = f1(math.Exp)
+	intrinsics["math.Copysign"] = f2(math.Copysign)
+	intrinsics["math.Remainder"] = f2(math.Remainder)
+	intrinsics["math.Hypot"] = f2(math.Hypot)
+	intrinsics["math.Signbit"] = func(e *Engine, a []Value) Value { return Bool{V: math.Signbit(a[0].(Float).V)} }
 	intrinsics["math.Float64bits"] = func(e *Engine, a []Value) Value { return mkInt(64, math.Float64bits(a[0].(Float).V)) }
 	intrinsics["math.Float64frombits"] = func(e *Engine, a []Value) Value { return Float{math.Float64frombits(a[0].(Int).V)} }
 	intrinsics["math.IsNaN"] = func(e *Engine, a []Value) Value { return Bool{V: math.IsNaN(a[0].(Float).V)} }
